@@ -328,7 +328,7 @@ def build_trace(sc, log, threads):
             if i not in waiter:
                 waiter[i] = len(waiter)
                 lock = b in ('close', 'chan-open')
-                lines.append('c06.act enter:%s:%s:%d' % (info[0], 'c' if b == 'consume' else 'n', 1 if lock else 0))
+                lines.append('c06.act enter:%s:%s:%d' % (info[0], {'consume': 'c', 'gen': 'g'}.get(b, 'n'), 1 if lock else 0))
                 expect.append(None)
                 if lock:
                     holder = i
